@@ -65,6 +65,20 @@ theorem fact_engine_wiring :
       "engine.Configure:NewInMemorySessionDatabase", "engine.Configure:NewMemcachedSessionDatabase",
       "engine.Configure:NewRedisSessionDatabase"] := by decide
 
+/-- key-space disjointness: over EVERY session store of auth/api/iam and vcr/issuer (regenerated), the key paths
+    "seg/seg/" are pairwise not a prefix of one another, for the "/" join of the in-memory / memcached flavour and the
+    "." join of the redis flavour — so no store, not even one whose keys the requester chooses freely (the burn-all
+    Delete of `validatePresentationNonce`, the code of a token request), can reach an entry of another store.
+    This is what lets the model's keys be pairs (namespace, id). -/
+theorem fact_keyspace_disjoint :
+    pairwiseNonPrefix Facts.C05.storePathsMem = true ∧ pairwiseNonPrefix Facts.C05.storePathsRedis = true ∧
+    Facts.C05.storePathsMem.length = Facts.C05.allStorePrefixes.length ∧ Facts.C05.storePathsMem.Nodup ∧
+    (∀ k ∈ Kind.all, todayPrefix k ∈ Facts.C05.allStorePrefixes) := by decide
+
+theorem keyspace_disjoint (p q : List Char) (hp : p ∈ Facts.C05.storePathsMem) (hq : q ∈ Facts.C05.storePathsMem)
+    (hne : p ≠ q) (k1 k2 : List Char) : p ++ k1 ≠ q ++ k2 :=
+  pairwiseNonPrefix_disjoint _ fact_keyspace_disjoint.1 p q hp hq hne k1 k2
+
 /-- the one-time stores are used by exactly these functions: the four issuing functions `Put` (fresh random keys),
     every other access is one of the modelled consumers -/
 theorem fact_store_users :
